@@ -16,6 +16,9 @@ type WrapT struct {
 	AfterRecv func(n int, err error)
 	// BeforeSend may fail a Send transiently: the error is returned and nothing is written
 	BeforeSend func() error
+	// AfterSend runs after the inner Send returned and before the wrapper returns (a Send that returns late:
+	// the envelope is on its way while the caller has not got control back yet)
+	AfterSend func()
 	mu        sync.Mutex
 	n         int
 }
@@ -38,7 +41,11 @@ func (w *WrapT) Send(ctx context.Context, e lime.VerifEnvelope) error {
 			return err
 		}
 	}
-	return w.Transport.Send(ctx, e)
+	err := w.Transport.Send(ctx, e)
+	if f := w.AfterSend; f != nil {
+		f()
+	}
+	return err
 }
 
 // QueueListener is a TransportListener that hands out the transports offered to it.
